@@ -609,3 +609,9 @@ package ship
 //@ func (c *ShipConnection).WriteShipMessageWithPayload(message) entry [C06,C08]
 //@   requires c.smeState == model.SmeStateComplete
 //@   modifies @cl(c)
+
+// every field of the structs shared between goroutines is classified (C20)
+//@ fieldcover ShipConnection
+// the prolongation timer fires on its own goroutine while the read pump handles the peer's hello update
+//@ guarded ShipConnection.lastReceivedWaitingValue by ShipConnection.handshakeTimerMux
+//@ noclaim ShipConnection.dataReader, ShipConnection.remoteShipID because only touched by the handlers of the access-methods phase and of data frames, which run on the read pump goroutine (timer expiries in those phases end the handshake without touching them); goroutine confinement is not proved
